@@ -47,6 +47,19 @@ def _impl_objid(fs, scalar, dtype='int64'):
 
 
 def _impl_unobjid(vs, as_str):
+    """An exception on a valid 64-bit value is an answer (per element), never a harness crash."""
+    try:
+        return _impl_unobjid_block(vs, as_str)
+    except Exception as e:
+        if len(vs) == 1:
+            return [['exc:' + core.exc_kind(e)]]
+        out = []
+        for v in vs:
+            out += _impl_unobjid([v], as_str)
+        return out
+
+
+def _impl_unobjid_block(vs, as_str):
     from pydl.photoop.photoobj import unwrap_objid
     if as_str:
         a = np.array([str(v) for v in vs])
@@ -82,6 +95,19 @@ def _impl_specli(c):
 
 
 def _impl_unspec(vs, as_str):
+    """Every valid 64-bit value must unpack: an exception is an answer (per element), never a harness crash."""
+    try:
+        return _impl_unspec_block(vs, as_str)
+    except Exception as e:
+        if len(vs) == 1:
+            return [{'f': ['exc:' + core.exc_kind(e)], 's': '', 'index': -1}]
+        out = []
+        for v in vs:
+            out += _impl_unspec([v], as_str)
+        return out
+
+
+def _impl_unspec_block(vs, as_str):
     from pydl.pydlutils.sdss import unwrap_specobjid
     a = np.array([str(v) for v in vs]) if as_str else np.array(vs, dtype=np.uint64)
     u = unwrap_specobjid(a)
@@ -416,11 +442,12 @@ def _unspec(ctx):
             c = {'stream': 'unspec', 'as_str': as_str, 'v': blk}
             ctx.seen(c)
             ctx.count('unspec:' + ('str' if as_str else 'uint64'), len(blk))
+            dis = False
             for k, (v, got, mm) in enumerate(zip(blk, impl, m)):
                 one = {'stream': 'unspec', 'as_str': as_str, 'v': [v]}
-                if got['f'] != mm['f'] or got['s'] != mm['s'] or got['index'] != mm['f'][4]:
+                if (got['f'] != mm['f'] or got['s'] != mm['s'] or (len(got['f']) == 5 and got['index'] != mm['f'][4])) and not dis:
                     ctx.disagree('unspec', one, got, mm)
-                    break
+                    dis = True      # one report per block; the oracle below still judges every element
                 want = _fields_of(v, SPEC_RANGES, SPEC_SHIFT)
                 r = want[3]
                 ws = 'v%d_%d_%d' % (r // 10000 + 5, (r % 10000) // 100, r % 100)
